@@ -405,7 +405,7 @@ class SelWorld:
                                                                   NameError, ArithmeticError)):
                 internal.append("connect() of %s failed with %s: %s" % (p, type(r.value).__name__, str(r.value)[:80]))
         log.removeObserver(self.logged)
-        rec = {"tid": tid, "l": {}, "startedS": "S" in self.started, "startedR": "R" in self.started, "resultS": self.result_link("S"), "resultR": self.result_link("R"),
+        rec = {"tid": tid, "honestDue": bool(getattr(self, "honest_due", False)), "l": {}, "startedS": "S" in self.started, "startedR": "R" in self.started, "resultS": self.result_link("S"), "resultR": self.result_link("R"),
                "deadlineS": self.deadline["S"], "deadlineR": self.deadline["R"], "internal": internal,
                "resultTime": self.result_time}
         for l, k in self.kinds.items():
@@ -433,12 +433,16 @@ CONFIGS = {
     "evil_relay2": ({"b": "r2s", "e": "evilrelayS", "f": "evilrelayR"}, {"e": ["ok", "junk"], "f": ["junk"]}),
     # a sender of another implementation (a key holder) that takes the protocol's losing branch towards R
     "alt_sender": ({"a": "s2r", "y": "altsenderR"}, {"y": ["SH", "nevermind"]}),
+    # a crowd at the sender's listener: idle strangers (they connect and say nothing) next to the one honest contender
+    "crowd": ({"b": "r2s", "x1": "strangerS", "x2": "strangerS", "x3": "strangerS", "x4": "strangerS", "x5": "strangerS",
+               "x6": "strangerS"}, {}),
 }
+NO_CUT = ("three", "crowd")
 
 INVARIANTS = ["AtMostOneGo", "GoOnlyAfterRH", "ReceiverNeedsGo", "SameLink", "KeyHoldersOnly", "ResultIsRecords", "OthersClosed",
-              "DeadlineDecides", "WinnerReturned"]
+              "DeadlineDecides", "WinnerReturned", "HonestWins"]
 OBS_NAMES = ["AtMostOneGo", "GoOnlyAfterRH", "ReceiverNeedsGo", "SameLink", "KeyHoldersOnly", "OthersClosed", "Deadline", "NoInternal",
-             "WinnerReturned"]
+             "WinnerReturned", "HonestWins"]
 
 
 GOALS = {
@@ -463,6 +467,137 @@ GOALS = {
     # one has a link, the other failed
     "split_outcome": "(result.S \\in Links /\\ result.R = \"failed\") \\/ (result.R \\in Links /\\ result.S = \"failed\")",
 }
+
+
+HONEST = ("s2r", "r2s", "relay")
+SEL_T_PROJ = ('[st |-> [l \\in Links |-> [S |-> IF st[l].S \\in {"hung up", "lost"} THEN "down" ELSE st[l].S, '
+              'R |-> IF st[l].R \\in {"hung up", "lost"} THEN "down" ELSE st[l].R]], '
+              'result |-> result, started |-> started, deadline |-> deadline]')
+
+
+def sel_projection(w):
+    return {"st": {l: {p: w.coarse(w.state_of(l, p)) for p in ("S", "R")} for l in w.kinds},
+            "result": {p: w.result_link(p) for p in ("S", "R")},
+            "started": {p: p in w.started for p in ("S", "R")}, "deadline": dict(w.deadline)}
+
+
+def sel_wire(w):
+    """units in flight towards each of our ends, shaped like the model's `wire` (what _PeerGone wants to know)"""
+    out = {}
+    for l in w.kinds:
+        out[l] = {"toS": [], "toR": []}
+        for p in ("S", "R"):
+            e = w.end(l, p)
+            if e is not None and e[0] is not None and e[0].ends[1 - e[1]] is not None and not e[0].cut:
+                out[l]["to" + p] = list(e[0].ends[1 - e[1]].out)
+    return out
+
+
+def sel_enabled(w, cut, partial, faults=True):
+    """environment actions the real parties offer right now (no relay kinds: the walks use the other configurations)"""
+    acts = []
+
+    def listening(p):
+        port = w.portS if p == "S" else w.portR
+        lp = reactor.listeners.get(port)
+        return port is not None and lp is not None and lp.listening
+    for p in ("S", "R"):
+        if p not in w.started:
+            acts += [("Start", p, "-")] * 2
+        elif faults and not w.deadline[p] and p not in w.results:
+            acts.append(("Deadline", p, "-"))
+    for l, k in w.kinds.items():
+        if l not in w.links:
+            if k == "s2r":
+                if "S" in w.started and w._attempts_to(w.portR, w.S) and listening("R"):
+                    acts += [("Established", l, "-")] * 2
+            elif k == "r2s":
+                if "R" in w.started and w._attempts_to(w.portS, w.R) and listening("S"):
+                    acts += [("Established", l, "-")] * 2
+            elif k in ("strangerS", "wrongkeyS", "strangerR", "wrongkeyR", "altsenderR"):
+                p = "S" if k.endswith("S") else "R"
+                if listening(p):
+                    acts += [("Established", l, "-")] * 2
+                elif l not in getattr(w, "late_dialled", ()):
+                    acts.append(("LateDial", l, "-"))
+            continue
+        for p in ("S", "R"):
+            e = w.end(l, p)
+            if e is None:
+                continue
+            link, i = e
+            live = w.coarse(w.state_of(l, p)) not in ("down", "-")
+            if live and link.can_deliver(1 - i):
+                acts += [("Deliver", l, p)] * 4
+                c = w.conn(l, p)
+                if partial and faults and not w.part[l][p] and getattr(c, "state", "") in ("relay", "handshake", "wait-for-decision") \
+                        and len(link.ends[1 - i].out[0]) > 1:
+                    acts.append(("DeliverPart", l, p))
+            if live and link.alive[i]:
+                far = link.ends[1 - i]
+                orderly = k in HONEST and far is not None and (far.disconnecting or not far.connected) and not far.out
+                if orderly:
+                    acts += [("PeerGone", l, p)] * 2
+                elif cut and faults:
+                    acts.append(("PeerGone", l, p))
+        if k not in HONEST and w.script_pos[l] < len(w.scripts.get(l, ())):
+            acts += [("OutsiderSend", l, "-")] * 2
+    return acts
+
+
+def sel_walk(tid, kinds, scripts, cut, partial, rng, nsteps=30, policy=None):
+    """Code -> spec for C07: a seeded walk over what a real TransitSender / TransitReceiver pair and the network around them
+    offer (the walk never consults the model), recorded step by step for validation against Transit.tla; after the random
+    part everything that was written is delivered, with no further faults, and the run is judged where it comes to rest."""
+    w = SelWorld(kinds, scripts, rng)
+    lines = []
+    env_cut = env_deadline = False
+
+    def step(la):
+        nonlocal env_cut, env_deadline
+        if la[0] == "PeerGone":
+            e = w.end(la[1], la[2])
+            far = e[0].ends[1 - e[1]]
+            if not (kinds[la[1]] in HONEST and far is not None and (far.disconnecting or not far.connected) and not far.out):
+                env_cut = True
+        if la[0] == "Deadline":
+            env_deadline = True
+        if la[0] == "LateDial":
+            w.late_dialled = set(getattr(w, "late_dialled", ())) | {la[1]}
+        w.do(tuple(la), prev={"wire": sel_wire(w)})
+        lines.append({"a": list(la), "proj": sel_projection(w)})
+    for n in range(nsteps):
+        acts = sel_enabled(w, cut, partial)
+        if not acts:
+            break
+        la = policy(w, acts, n) if policy is not None else rng.choice(acts)
+        if la is None:
+            break
+        step(la)
+    # fair completion: no cuts, no partial units, no deadline while anything else can still happen
+    for _ in range(200):
+        acts = [a for a in sel_enabled(w, False, False, faults=False) if a[0] != "LateDial"]
+        if not acts:
+            break
+        step(acts[0] if policy is not None else rng.choice(acts))
+    honest_up = any(kinds[l] in HONEST for l in w.links)
+    w.honest_due = honest_up and not env_cut and not env_deadline and w.started == {"S", "R"}
+    return w, lines
+
+
+def crowd_policy(w, acts, n):
+    """every idle stranger gets in first, then both parties start and the honest contender arrives"""
+    for want in ("Established",):
+        for a in acts:
+            if a[0] == want and w.kinds[a[1]] not in HONEST:
+                return a
+    for a in acts:
+        if a[0] == "Start":
+            return a
+    for a in acts:
+        if a[0] == "Established":
+            return a
+    return None
 
 
 def consts_for(kinds, scripts, cut, partial):
@@ -521,7 +656,7 @@ def run(prop, tier):
             if quick and name in ("three",):
                 continue
             m = "MC_C07_" + name
-            common.write_model(wd, m, "Transit", consts_for(kinds, scripts, cut=(name != "three"), partial=True),
+            common.write_model(wd, m, "Transit", consts_for(kinds, scripts, cut=(name not in NO_CUT), partial=(name != "crowd")),
                                invariants=INVARIANTS, properties=["NoHang"] if name in ("two_direct", "only_strangers") else [])
             r = tlc.run(m + ".tla", m + ".cfg", cwd=wd.path, timeout=1800)
             cov["tlc_configs"][name] = {"distinct_states": r.distinct, "states_generated": r.generated, "depth": r.depth,
@@ -568,7 +703,7 @@ def run(prop, tier):
                     goals["early_winner_" + l] = '~started.S /\\ winner = "%s"' % l
                 if k == "s2r":
                     goals["early_rwin_" + l] = '~started.R /\\ rwin = "%s"' % l
-            wit, unreached = common.witnesses(wd, "Transit", consts_for(kinds, scripts, cut=(name != "three"), partial=True), goals,
+            wit, unreached = common.witnesses(wd, "Transit", consts_for(kinds, scripts, cut=(name not in NO_CUT), partial=(name != "crowd")), goals,
                                               "MC_C07_goal_" + name)
             cov.setdefault("witness_goals", {})[name] = {"reached": [g for g, _ in wit], "unreached": unreached}
             for g, tr in wit:
@@ -584,6 +719,44 @@ def run(prop, tier):
                     ndrift += 1
                     if len(cov["drift"]) < 8:
                         cov["drift"].append(dict(drift, tid=tid, config=name, origin=origin, schedule=w.schedule[:drift["step"] + 1]))
+        # code -> spec: seeded walks over the real parties, validated by TLC against Transit.tla
+        wrng = random.Random(seed * 7919 + 7)
+        tv = {"walks": 0, "accepted": 0, "rejected": []}
+        for name in ("two_direct", "strangers", "strangers2", "only_strangers", "alt_sender", "crowd"):
+            kinds, scripts = CONFIGS[name]
+            cut, partial = name not in NO_CUT, name != "crowd"
+            traces = {}
+            nwalks = (12 if quick else 120) if name != "crowd" else (6 if quick else 40)
+            for k in range(nwalks):
+                tid += 1
+                pol = crowd_policy if (name == "crowd" and k % 2 == 0) else None
+                try:
+                    w, lines = sel_walk(tid, kinds, scripts, cut, partial, random.Random(wrng.random()), policy=pol)
+                except Exception as e:
+                    cov["walk_errors"] = cov.get("walk_errors", []) + [("%s: %r" % (name, e))[:160]]
+                    continue
+                rec = w.record(tid)
+                rec["origin"], rec["config"] = "real-walk" + (":crowd-first" if pol else ""), name
+                records.append(rec)
+                runs[tid] = w
+                traces[tid] = lines
+            if not traces:
+                continue
+            res, _r = common.trace_validate(wd, "Transit", consts_for(kinds, scripts, cut=cut, partial=partial), traces, SEL_T_PROJ,
+                                            "MC_C07_trace_" + name)
+            for t, (reached, total) in sorted(res.items()):
+                tv["walks"] += 1
+                if reached == total:
+                    tv["accepted"] += 1
+                elif len(tv["rejected"]) < 6:
+                    tv["rejected"].append({"tid": t, "config": name, "matched_lines": reached, "of": total,
+                                           "next_line": traces[t][reached] if reached < total else None,
+                                           "schedule": runs[t].schedule[:reached + 1]})
+        cov["trace_validation"] = dict(tv, rule="each walk = up to 30 environment steps chosen among what the real parties and the network "
+                                       "offer (connect(), TCP establishment, unit delivery whole or in part, outsiders' scripted units, "
+                                       "orderly closes, cuts, deadlines) followed by a fair completion; accepted = Transit.tla has a "
+                                       "behaviour with the same actions and the same projection (negotiation state of every connection "
+                                       "end, both connect() results, started, deadlines) after every step")
         path = wd.file("obs.ndjson")
         with open(path, "w") as f:
             for rec in records:
